@@ -380,6 +380,21 @@ def rand_ghw(rng):
             tn, lits = rng.choice(ENUMS)
             v = fg.Var(name, "enum", literals=lits, type_name=tn, rtik=22 if len(lits) == 2 and rng.random() < 0.7 else 23, **extra)
         vs.append(v)
+        # a variable that consists of signals of an earlier vector: the whole vector again or a sub-range of it
+        parents = [p for p in vs if p.kind in ("logic", "bit") and p.rng is not None and p.width >= 2 and "slice_par" not in p.extra]
+        if parents and rng.random() < 0.2:
+            p = rng.choice(parents)
+            a = rng.randrange(p.width)
+            b = rng.randrange(a, p.width)
+            if rng.random() < 0.2:
+                a, b = 0, p.width - 1
+            w = b - a + 1
+            lo = rng.choice([0, 0, 2])
+            crg = None if w == 1 and rng.random() < 0.5 else rng.choice([(lo + w - 1, lo), (lo, lo + w - 1)])
+            tn = {"logic": "std_logic_vector" if crg else "std_ulogic", "bit": "bit_vector" if crg else "bit"}[p.kind]
+            c = fg.Var(fresh(rng, used), p.kind, rng=crg, type_name=tn, dir=rng.choice(["signal", "in", "out"]), slice_par=[p, a, b])
+            p.extra["plain"] = True
+            vs.append(c)
     # composite signals: arrays of non-bit elements (a scope whose elements are labelled with their declared index, in the
     # declared direction) and records (a scope with one variable per field)
     import copy
@@ -388,7 +403,10 @@ def rand_ghw(rng):
     while k < len(vs):
         v = vs[k]
         r = rng.random()
-        if r < 0.2 and not (v.kind in ("logic", "bit") and v.rng is None):
+        if v.extra.get("plain") or "slice_par" in v.extra:
+            units.append(v)
+            k += 1
+        elif r < 0.2 and not (v.kind in ("logic", "bit") and v.rng is None):
             n = rng.randrange(1, 5)
             lo = rng.choice([0, 0, 1, 5])
             left, right = rng.choice([(lo + n - 1, lo), (lo, lo + n - 1)])
@@ -402,18 +420,56 @@ def rand_ghw(rng):
                                   composite=["array", left, right, rng.choice(["int_array", "mem_t", "arr_t"]) + "_" + v.kind,
                                              rng.choice([None, "sub_" + v.name])]))
             k += 1
-        elif r < 0.32 and k + 1 < len(vs):
+        elif r < 0.32 and k + 1 < len(vs) and not any(x.extra.get("plain") or "slice_par" in x.extra for x in vs[k:k + 3]):
             n = min(rng.randrange(2, 4), len(vs) - k)
-            fields = vs[k:k + n]
+            fields = list(vs[k:k + n])
             d = fields[0].extra.get("dir", "signal")
             for j, f in enumerate(fields):
                 f.extra["dir"] = d
+                if rng.random() < 0.25 and not (f.kind in ("logic", "bit") and f.rng is None):
+                    # a field that is an array itself
+                    m = rng.randrange(1, 4)
+                    left, right = rng.choice([(m - 1, 0), (0, m - 1), (m + 1, 2)])
+                    step = -1 if left > right else 1
+                    elems = []
+                    for idx in range(left, right + step, step):
+                        e = copy.deepcopy(f)
+                        e.name = "[%d]" % idx
+                        elems.append(e)
+                    fields[j] = fg.Scope(f.name, elems, kind="ghw_array", dir=d,
+                                         composite=["array", left, right, "field_arr_" + f.kind, None])
             units.append(fg.Scope(fresh(rng, used, "rec"), fields, kind="ghw_record", dir=d,
                                   composite=["record", rng.choice(["rec_t", "pair_t", "bus_t"]) + "_%d" % k]))
             k += n
         else:
             units.append(v)
             k += 1
+    # nested composites: an array of records, a record with an array among its fields, an array of arrays
+    def set_dir(x, d):
+        x.extra["dir"] = d
+        if isinstance(x, fg.Scope):
+            for c in x.children:
+                set_dir(c, d)
+    nested = []
+    for u in units:
+        comp = u.extra.get("composite") if isinstance(u, fg.Scope) else None
+        if comp and rng.random() < 0.3:
+            n = rng.randrange(1, 4)
+            lo = rng.choice([0, 1, 5])
+            left, right = rng.choice([(lo + n - 1, lo), (lo, lo + n - 1)])
+            step = -1 if left > right else 1
+            elems = []
+            for idx in range(left, right + step, step):
+                e = copy.deepcopy(u)
+                e.name = "[%d]" % idx
+                elems.append(e)
+            outer = fg.Scope(u.name, elems, kind="ghw_array", dir=u.extra.get("dir", "signal"),
+                             composite=["array", left, right, "arr_of_" + comp[0] + "_" + u.name, None])
+            set_dir(outer, outer.extra["dir"])
+            nested.append(outer)
+        else:
+            nested.append(u)
+    units = nested
     top = []
     stack = [top]
     for v in units:
@@ -429,6 +485,11 @@ def rand_ghw(rng):
             stack.pop()
     items = [fg.Scope("top", top, kind="instance")]
     vs = fg.all_vars(items)
+    for v in vs:
+        if "slice_par" in v.extra:
+            p, a, b = v.extra.pop("slice_par")
+            v.extra["slice_of"] = [next(k for k, x in enumerate(vs) if x is p), a, b]
+        v.extra.pop("plain", None)
     # rounds: times with delta cycles (same time) allowed
     n = rng.randrange(2, 12)
     t = rng.choice([0, 0, 7])
@@ -443,6 +504,8 @@ def rand_ghw(rng):
     for ti, t in enumerate(times):
         chs = []
         for i, v in enumerate(vs):
+            if "slice_of" in v.extra:
+                continue
             if ti == 0 or rng.random() < 0.45:
                 val = rand_value(rng, v, cur.get(i), rng.choice([2, 9, 9]))
                 if ti > 0 and v.kind in ("logic", "bit") and val == cur.get(i):
@@ -575,6 +638,55 @@ def fst_model_tie(res, paths, tag, model_ok, seed=1, what="generated"):
                 res.mismatches.append((ml[:6000], "wellen on %s: %s" % (lines[k], got[:3000]), "model of fst.rs: " + mo[:3000]))
             else:
                 res.nontrivial.add((cmd, what, hash(ml)))
+
+
+def ghw_model_tie(res, paths, tag, model_ok, what="generated", whole=True):
+    """wellen's GHW loader against its model on GHW files: the header (strings, types, well-known types, hierarchy: harness
+    `ghwhier` vs model `ghwh`, Model/GhwHier.v) and the whole file (`ghwfile` vs `ghwf`, Model/GhwFile.v: the signal sections
+    read with the decode information of the modelled header)."""
+    if not model_ok or not paths:
+        return
+
+    def abnormal(x):
+        return x in ("PANIC", "CRASH-OR-HANG") or x.startswith("MODEL-")
+    for cmd, mcmd in (("ghwhier", "ghwh"), ("ghwfile", "ghwf")) if whole else (("ghwhier", "ghwh"),):
+        lines = ["%s %s" % (cmd, p) for p in paths]
+        outs = core.run_cases(core.WV_DEBUG, lines, tag + cmd, timeout=900)
+        mouts = core.run_cases(core.MODEL_RUN, ["%s 1 %s" % (mcmd, p) for p in paths], tag + mcmd, timeout=900)
+        for ln, a, b in zip(lines, outs, mouts):
+            res.evaluations += 1
+            kl = "ghw-model-%s-%s-%s" % (cmd, what, "ok" if " " in a else a.lower()[:12])
+            res.distribution[kl] = res.distribution.get(kl, 0) + 1
+            if "efbfbd" in a:
+                continue          # a name that is not valid UTF-8 (String::from_utf8_lossy is not modelled)
+            if a != b and not (abnormal(a) and abnormal(b)):
+                res.mismatches.append(("%s 1 %s" % (mcmd, ln.split(" ", 1)[1]), "wellen (%s): %s" % (cmd, a[:3000]), "model of the GHW loader: " + b[:3000]))
+            else:
+                res.nontrivial.add((cmd, what, ln if what != "generated" else hash(a)))
+
+
+def ghw_corrupt_headers(rng, paths, d, per_file):
+    """truncations and single-byte corruptions of the header part of GHW files (everything in front of the end-of-header
+    mark; the 4 bytes that hold the number of signals are left alone: a huge table is an allocation matter)"""
+    out = []
+    for p in paths:
+        data = open(p, "rb").read()
+        eoh = data.find(b"EOH\0")
+        hie = data.find(b"HIE\0")
+        if eoh < 0 or hie < 0:
+            continue
+        keep = set(range(hie + 16, hie + 20))
+        for k in range(per_file):
+            q = os.path.join(d, "%s.bad%d" % (os.path.basename(p), k))
+            if rng.random() < 0.3:
+                open(q, "wb").write(data[:rng.randrange(16, eoh + 4)])
+            else:
+                pos = rng.choice([x for x in range(16, eoh) if x not in keep])
+                b = bytearray(data)
+                b[pos] = rng.choice([0, 1, 2, 3, 5, 15, 16, 22, 23, 25, 31, 32, 34, 35, 127, 128, 255, (b[pos] + 1) % 256, b[pos] ^ 0x80])
+                open(q, "wb").write(bytes(b))
+            out.append(q)
+    return out
 
 
 def run_file_cases(res, cases, tag, timeout=900, release=False, with_files=None):
